@@ -21,7 +21,37 @@ ID = "C27"
 COQ_REQUIRE = ["M_RepairOrch"]
 COQ_CASE_TYPE = "M_RepairOrch.case"
 COQ_CHECK = "M_RepairOrch.check_case"
-OBLIGATIONS = []
+OBLIGATIONS = ["repair_status_ok_iff", "repair_done_records_selection",
+               "repair_done_ignored_unless_running", "repair_ok_every_orphan_selected",
+               "rehost_only_replica_holders", "orphan_hosts_are_selectors",
+               "repair_ok_not_exactly_one_refuted"]
+RULE = ("20% real resilient thread-mode runs (4-6 variables, 4-6 agents, capacity 100000, mgm/dsa "
+        "without stop condition, replication level k in 1..2, one removal event of 1..k agents, "
+        "distributions oneagent/adhoc/random, switch interval 1e-5..5e-3 s); 80% crafted protocol "
+        "runs on the real AgentsMgt with a crafted directory (each orphan selected by 0, 1 or 2 of "
+        "its replica holders, stray ready/done messages, up to two events, repair_only flag); "
+        "non-trivial = at least one repair_done handled; distinct = distinct case JSON")
+MODELLED = ("orchestrator repair bookkeeping and the agent's activation rule are modelled and the "
+            "status / selection / replica-holder statements are theorems; 'OK only if hosted exactly "
+            "once' is refuted (duplicate selection, known finding); that MGM2 selects every orphan "
+            "exactly once, replication, transport and threads are only exercised by the real runs, "
+            "whose end state (directory + agents' computations + dumped status) the oracle checks")
+META = dict(
+    level_text=("Partial proof (Coq): for the model of the orchestrator's repair bookkeeping and of the "
+                "agents' activation rule, for every message trace: the dumped status is OK iff no "
+                "recorded orphan is left unmarked, hence OK implies every orphan was selected by some "
+                "agent; an agent only activates computations whose replica it held; the hosts of an "
+                "orphan after the repair are exactly the agents that selected it. The clause 'OK only "
+                "if hosted exactly once' is refuted for the code as it is (two agents selecting the same "
+                "computation, known finding). Real resilient thread-mode runs with every removal choice "
+                "sampled check directory, hosted computations and status after the repair; their "
+                "management traces and crafted protocol runs are replayed through the model."),
+    level_note=("Not theorems: convergence of the MGM2 repair DCOP to a selection of every orphan exactly "
+                "once (randomised local search), replication (C25), transport, threads. Trusted: Coq "
+                "kernel, M_RepairOrch.v, the harness."),
+    technique="Coq proof over executable Gallina state machine + replay of real resilient runs",
+    design_ref="DESIGN.md §5 C27",
+)
 N_QUICK, N_THOROUGH = 120, 1200
 PARALLEL = 8
 SHARD = 60
